@@ -40,6 +40,7 @@ import Pumpkin.Model.Drcp
 import Pumpkin.Model.Dimacs
 import Pumpkin.Model.ImplicitReason
 import Pumpkin.Model.Lits
+import Pumpkin.Model.SemMin
 import Pumpkin.Check.Rup
 import Pumpkin.Check.MaxSat
 import Pumpkin.Check.DrcpCheck
@@ -464,6 +465,38 @@ def respond (st : St) (line : String) : St × Option String :=
                  | .bool nm v => s!" b {name nm} {v}")) "") "ok"
        if model == impl then (st, some s!"ok litsfile {(model.splitOn " ").take 1}")
        else (st, some s!"FAIL litsfile model=[{model}] impl=[{impl}]"))
+  | "semmin" :: mergeTok :: rest =>
+    -- `semmin <merge 0|1> <n> <input atoms> :: (false | <k> <output atoms>)`: exact correspondence of
+    -- the real SemanticMinimiser::minimise with Model/SemMin (as sets of predicates; the original
+    -- domains are the declared domains of the current model)
+    (match (do
+        let (inp, r1) ← pList pAtom rest
+        match r1 with
+        | "::" :: "false" :: _ => pure (inp, (none : Option (List Atom)))
+        | "::" :: r2 =>
+          let (outp, _) ← pList pAtom r2
+          pure (inp, some outp)
+        | _ => none) with
+     | none => (st, some "FAIL semmin unparsed")
+     | some (inp, impl) =>
+       let origOf := fun (x : Nat) =>
+         match st.model.doms[x]? with
+         | some (v :: vs) =>
+           let lo := vs.foldl min v
+           let hi := vs.foldl max v
+           let holes := ((List.range (hi - lo + 1).toNat).map (fun (i : Nat) => lo + (i : Int))).filter (fun z => !(v :: vs).contains z)
+           (⟨lo, hi, holes, false⟩ : Pumpkin.SemMin.SD)
+         | _ => ⟨0, 0, [], false⟩
+       let model := Pumpkin.SemMin.minimise origOf inp (mergeTok == "1")
+       let one := fun (a : Atom) => match a with
+         | .ge x v => s!"ge:{x}:{v}" | .le x v => s!"le:{x}:{v}" | .ne x v => s!"ne:{x}:{v}" | .eq x v => s!"eq:{x}:{v}"
+       let norm := fun (l : List Atom) => (l.map one).mergeSort (fun a b => a ≤ b)
+       let shown := fun (l : List Atom) => ",".intercalate (norm l)
+       match model, impl with
+       | none, none => (st, some "ok semmin false")
+       | some m, some i => if norm m == norm i then (st, some "ok semmin") else (st, some s!"FAIL semmin model={shown m} impl={shown i}")
+       | none, some i => (st, some s!"FAIL semmin model=false impl={shown i}")
+       | some m, none => (st, some s!"FAIL semmin model={shown m} impl=false"))
   | "implicit" :: rest =>
     -- `implicit <trail atom> <queried atom> <n> <reason atoms>`: exact correspondence with
     -- Model/ImplicitReason (the reason the real conflict analysis derived for a predicate that is
